@@ -5,13 +5,13 @@ import json, os
 import vlib
 
 SPEC = "TcpExporter"
-INV = "TypeOK Framing NoDuplicateFrame MetadataFirstAndOrder CountConsistent QueueConservation NoTornFrame StartsUp"
+INV = "TypeOK NoStrandedMetric Framing NoDuplicateFrame MetadataFirstAndOrder CountConsistent QueueConservation NoTornFrame StartsUp"
 TINV = "TypeOK CountConsistent NoTornFrame StartsUp"
 
 
 def cfg(name, spec="Spec", inv=INV, post=False, **kw):
     base = dict(Clients="{2,3}", Limit=2, Unbounded="FALSE", NEmit=2, NMeta=1, FrameLen=2, SockCap=3,
-                FixDoubleDec="TRUE", FixUnbounded="TRUE", FixWouldBlock="TRUE")
+                FixDoubleDec="TRUE", FixUnbounded="TRUE", FixWouldBlock="TRUE", CoalesceWake="FALSE")
     base.update(kw)
     p = os.path.join(vlib.SPECS, SPEC, "gen_%s.cfg" % name)
     with open(p, "w") as f:
@@ -43,14 +43,14 @@ def run(chk):
         mcs += [("two_clients_3", dict(NEmit=3)), ("limit1_two", dict(Limit=1, NEmit=3, NMeta=0))]
     for name, kw in mcs:
         r = vlib.tlc_mc(SPEC, "TcpExporter", cfg(name, **kw), workers=8, timeout=3600, tag=name)
-        if not chk.expect_mc_ok(r, "TcpExporter/" + name, vacuity_exempt={"EmitAny", "WakeAny", "RxMetricId", "RxEndAny", "DriveWriteO"}):
+        if not chk.expect_mc_ok(r, "TcpExporter/" + name, vacuity_exempt={"Emit", "EmitAny", "WakeAny", "RxMetricId", "RxEndAny", "DriveWriteO"}):
             return
         chk.log("TLC %s: %d distinct states, depth %d" % (name, r["distinct"], r["depth"]))
     # liveness: under fairness of the transport and of reading clients every queued frame is eventually written
     for name, clients in ([("live1", "{2}")] + ([("live2", "{2,3}")] if thorough else [])):
         c = cfg(name, spec="FairSpec", inv="TypeOK", Clients=clients, NEmit=2)
         pth = os.path.join(vlib.SPECS, SPEC, c)
-        open(pth, "a").write("PROPERTIES Delivery\n")
+        open(pth, "a").write("PROPERTIES Delivery ChannelDrains\n")
         r = vlib.tlc_mc(SPEC, "TcpExporter", c, workers=8, timeout=3600, coverage=False, tag=name)
         if not r["ok"]:
             p2 = chk.path("liveness.txt"); open(p2, "w").write(r["out"][-20000:])
@@ -62,7 +62,8 @@ def run(chk):
         chk.tool_error("the liveness property is vacuous: the WouldBlock-dropping variant satisfies Delivery", r["out"][-2000:])
     # the model still separates the three repaired defects
     for nm, kw in (("wb", dict(FixWouldBlock="FALSE", NEmit=3)), ("dd", dict(FixDoubleDec="FALSE")),
-                   ("unb", dict(FixUnbounded="FALSE", Unbounded="TRUE", Clients="{2}"))):
+                   ("unb", dict(FixUnbounded="FALSE", Unbounded="TRUE", Clients="{2}")),
+                   ("coalesce", dict(CoalesceWake="TRUE", Clients="{2}", NEmit=2, NMeta=0))):
         r = vlib.tlc_mc(SPEC, "TcpExporter", cfg("old_" + nm, **kw), workers=8, timeout=900, coverage=False, tag="old" + nm)
         if r["invariant"] is None:
             chk.tool_error("model lost the witness " + nm, r["out"][-2000:])
